@@ -106,8 +106,9 @@ def norm(s: str) -> str:
 
 
 def squeeze(s: str) -> str:
-    """Whitespace-insensitive key for header comparison."""
-    return re.sub(r"\s+", "", s)
+    """Whitespace- and trailing-comma-insensitive key for header comparison."""
+    s = re.sub(r"\s+", "", s)
+    return s.replace(",)", ")").replace(",>", ">")
 
 
 class Span:
